@@ -46,10 +46,16 @@
    another session id is refused                       id, MAC injective for this key)
   cryptosign: a signature that opens to another      cryptosign_replay_rejected (Facts.gen),
    challenge is refused (general)                      cryptosign_replay_rejected_of_checks
-  a user whose key is nil (key store answers         wampcra_nil_key_public_mac, wampcra_nil_key_witness,
-   (nil, nil)): EXCEPTION to "only authenticated       cryptosign_nil_key_zero_key,
-   clients" — MAC under the empty key / signature      cryptosign_nil_key_witness
-   under the all-zero public key (faithful to Go)
+  a user for whom the key store has NO KEY          wampcra_empty_key_refused, wampcra_empty_key_random_key,
+   ((nil, nil) or an empty slice) is refused          wampcra_empty_key_mac_refused, wampcra_empty_key_refused_gen,
+   (fixed in /repo 7f39285; the guards are             wampcra_challenge_hides_random_key, craKey_guarded_cases,
+   regenerated: craRefusesEmptyKey,                    wampcra_empty_key_witness; cryptosign_empty_key_refused,
+   csRefusesEmptyKey): wampcra checks the response     cryptosign_empty_key_refused_gen, cryptosign_empty_key_witness;
+   against a throw-away random key, cryptosign         bound_to_this_challenge_cryptosign (now also: the key is
+   aborts without CHALLENGE                            not empty).  Regression lemmas for a tree without the
+                                                       guard: wampcra_nil_key_public_mac_without_guard,
+                                                       cryptosign_nil_key_zero_key_without_guard,
+                                                       bound_to_this_challenge_cryptosign_full_fails_no_key_guard
   cryptosign: opens to THIS challenge                bound_to_this_challenge_cryptosign (the full
                                                      statement `.._full Facts.gen`, proved since the
                                                      fix of F7), .._gen, .._partial;
@@ -131,7 +137,9 @@ theorem source_shape :
       ["nonce", "cr.keyStore.Provider()", "authid", "wamp.NowISO8601()", "authrole", "cr.AuthMethod()", "session"] ∧
     Gen.Auth.craComparesHmacOfChallenge = true ∧
     Gen.Auth.cryptosignSignedLen = 96 ∧
-    Gen.Auth.metaStdItems = ["session", "authid", "authrole", "authmethod", "authprovider", "transport"] := by
+    Gen.Auth.metaStdItems = ["session", "authid", "authrole", "authmethod", "authprovider", "transport"] ∧
+    Gen.Auth.craKeyGuard = "err != nil || len(key) == 0" ∧ Gen.Auth.craRefusesEmptyKey = true ∧
+    Gen.Auth.csKeyGuard = "err != nil || len(key) == 0" ∧ Gen.Auth.csRefusesEmptyKey = true := by
   decide
 
 /-- Every WELCOME the built-in authenticators construct carries all four identity keys. -/
@@ -145,7 +153,8 @@ theorem source_facts_gen :
     Facts.gen.firstMatch = true ∧ Facts.gen.sessionKey = "session" ∧
     Facts.gen.helloSkip =
       ["authmethods", "roles", "session", "authid", "authrole", "authmethod", "authprovider"] ∧
-    Facts.gen.welcomeSkip = ["roles"] ∧ Facts.gen.csChecksChallenge = true := by
+    Facts.gen.welcomeSkip = ["roles"] ∧ Facts.gen.csChecksChallenge = true ∧
+    Facts.gen.craRefusesEmptyKey = true ∧ Facts.gen.csRefusesEmptyKey = true := by
   decide
 
 /-! ## WELCOME only if ... -/
@@ -368,20 +377,20 @@ theorem ticket_response_is_stored_ticket {ks : KeyStore} {t : Nat} {env : Env} {
 /-- wampcra: on the challenge path the base64-decoded response equals
     HMAC(key the router holds for the authid, the challenge string sent in THIS handshake), where
     that string contains this handshake's nonce, timestamp and session id. -/
-theorem wampcra_bound_to_this_challenge {ks : KeyStore} {t : Nat} {env : Env} {details : Dict}
+theorem wampcra_bound_to_this_challenge {rk : Bool} {ks : KeyStore} {t : Nat} {env : Env} {details : Dict}
     {script : List Arrival} {w : Dict}
-    (h : (craAuth ks t env details script).res = .ok w)
+    (h : (craAuth rk ks t env details script).res = .ok w)
     (hb : alreadyAuth ks.bypass (details.optString "authid") details = false) :
     ∃ nonce chStr sig sb,
       env.o.chalNonce = some nonce ∧
       chStr = craChallengeStr nonce ks.provider (details.optString "authid") env.o.now
                 (roleOr ks (details.optString "authid") "user") env.o.sid ∧
-      (craAuth ks t env details script).sent =
+      (craAuth rk ks t env details script).sent =
         [.challenge "wampcra" (craExtra ks (details.optString "authid") chStr)] ∧
       (craExtra ks (details.optString "authid") chStr).get? "challenge" = some (.str chStr) ∧
-      AnswersInTime (crTimeout t) script sig (craAuth ks t env details script).rest ∧
+      AnswersInTime (crTimeout t) script sig (craAuth rk ks t env details script).rest ∧
       env.o.b64decode sig = some sb ∧
-      sb = env.o.hmac (craKey ks env.o (details.optString "authid")) chStr := by
+      sb = env.o.hmac (craKey rk ks env.o (details.optString "authid")) chStr := by
   obtain ⟨_, _, hcase⟩ := craAuth_ok h
   rcases hcase with ⟨ha, _⟩ | ⟨_, chStr, hsent, _, nonce, sig, sb, hn, hch, hans, hdec, heq⟩
   · rw [hb] at ha; simp at ha
@@ -393,18 +402,18 @@ theorem wampcra_bound_to_this_challenge {ks : KeyStore} {t : Nat} {env : Env} {d
     rejected in this one whenever the two challenges have different MACs under the key (fresh
     nonce ⇒ different challenge string; distinct strings having distinct HMACs is the assumption
     on the primitive, stated as the hypothesis `hmac`). -/
-theorem wampcra_replay_rejected {ks : KeyStore} {t : Nat} {env : Env} {details : Dict}
+theorem wampcra_replay_rejected {rk : Bool} {ks : KeyStore} {t : Nat} {env : Env} {details : Dict}
     {script : List Arrival} {sig : String} {rest : List Arrival} {otherChallenge : String} {nonce : String}
     (hn : env.o.chalNonce = some nonce)
     (hans : AnswersInTime (crTimeout t) script sig rest)
     (hb : alreadyAuth ks.bypass (details.optString "authid") details = false)
     -- the response was valid for another challenge
     (hother : ∃ sb, env.o.b64decode sig = some sb ∧
-        sb = env.o.hmac (craKey ks env.o (details.optString "authid")) otherChallenge)
-    (hmac : env.o.hmac (craKey ks env.o (details.optString "authid")) otherChallenge ≠
-        env.o.hmac (craKey ks env.o (details.optString "authid"))
+        sb = env.o.hmac (craKey rk ks env.o (details.optString "authid")) otherChallenge)
+    (hmac : env.o.hmac (craKey rk ks env.o (details.optString "authid")) otherChallenge ≠
+        env.o.hmac (craKey rk ks env.o (details.optString "authid"))
           (craChallengeOf ks env (details.optString "authid") nonce)) :
-    ∀ w, (craAuth ks t env details script).res ≠ .ok w := by
+    ∀ w, (craAuth rk ks t env details script).res ≠ .ok w := by
   intro w h
   obtain ⟨nonce', chStr, sig', sb', hn', hch, _, _, hans', hdec', heq'⟩ := wampcra_bound_to_this_challenge h hb
   rw [hn] at hn'
@@ -429,51 +438,59 @@ theorem wampcra_replay_rejected {ks : KeyStore} {t : Nat} {env : Env} {details :
     HANDSHAKE. -/
 def bound_to_this_challenge_cryptosign_full (fx : Facts) : Prop :=
   ∀ (ks : KeyStore) (t : Nat) (env : Env) (details : Dict) (script : List Arrival) (w : Dict),
-    (csAuth fx.csChecksChallenge ks t env details script).res = .ok w →
+    (csAuth fx.csChecksChallenge fx.csRefusesEmptyKey ks t env details script).res = .ok w →
     alreadyAuth ks.bypass (details.optString "authid") details = false →
     ∃ challenge sig key sb opened,
       env.o.csChallenge = some challenge ∧
-      (csAuth fx.csChecksChallenge ks t env details script).sent =
+      (csAuth fx.csChecksChallenge fx.csRefusesEmptyKey ks t env details script).sent =
         [.challenge "cryptosign" [("challenge", .str (hexEncode challenge))]] ∧
-      AnswersInTime (crTimeout t) script sig (csAuth fx.csChecksChallenge ks t env details script).rest ∧
+      AnswersInTime (crTimeout t) script sig (csAuth fx.csChecksChallenge fx.csRefusesEmptyKey ks t env details script).rest ∧
       ks.authKey (details.optString "authid") "cryptosign" = .ok key ∧
       env.o.hexdecode sig = some sb ∧ sb.length = Gen.Auth.cryptosignSignedLen ∧
       env.o.signOpen sb (pad32 (key.getD [])) = some opened ∧
-      opened = challenge
+      opened = challenge ∧
+      -- … and that stored public key is an actual key: a key store answer without a key (nil or
+      -- empty, no error) is refused before any CHALLENGE (cryptosign.go: `err != nil || len(key) == 0`)
+      (key.getD []).isEmpty = false
 
 /-- What the code guarantees as it stands (everything but the last conjunct), for every `fx`. -/
 theorem bound_to_this_challenge_cryptosign_weak (fx : Facts)
     {ks : KeyStore} {t : Nat} {env : Env} {details : Dict} {script : List Arrival} {w : Dict}
-    (h : (csAuth fx.csChecksChallenge ks t env details script).res = .ok w)
+    (h : (csAuth fx.csChecksChallenge fx.csRefusesEmptyKey ks t env details script).res = .ok w)
     (hb : alreadyAuth ks.bypass (details.optString "authid") details = false) :
     ∃ challenge sig key sb opened,
       env.o.csChallenge = some challenge ∧
-      (csAuth fx.csChecksChallenge ks t env details script).sent =
+      (csAuth fx.csChecksChallenge fx.csRefusesEmptyKey ks t env details script).sent =
         [.challenge "cryptosign" [("challenge", .str (hexEncode challenge))]] ∧
-      AnswersInTime (crTimeout t) script sig (csAuth fx.csChecksChallenge ks t env details script).rest ∧
+      AnswersInTime (crTimeout t) script sig (csAuth fx.csChecksChallenge fx.csRefusesEmptyKey ks t env details script).rest ∧
       ks.authKey (details.optString "authid") "cryptosign" = .ok key ∧
       env.o.hexdecode sig = some sb ∧ sb.length = Gen.Auth.cryptosignSignedLen ∧
       env.o.signOpen sb (pad32 (key.getD [])) = some opened ∧
-      (fx.csChecksChallenge = true → opened = challenge) := by
+      (fx.csChecksChallenge = true → opened = challenge) ∧
+      (fx.csRefusesEmptyKey = true → (key.getD []).isEmpty = false) := by
   obtain ⟨_, authrole, _, hcase⟩ := csAuth_ok h
-  rcases hcase with ⟨ha, _⟩ | ⟨_, _, challenge, hsent, _, hc, sig, key, hans, hk, sb, opened, hd, hl, ho, himp⟩
+  rcases hcase with ⟨ha, _⟩ | ⟨_, _, challenge, hsent, _, hc, sig, key, hans, hk, hrk, sb, opened, hd, hl, ho, himp⟩
   · rw [hb] at ha; simp at ha
-  · exact ⟨challenge, sig, key, sb, opened, hc, hsent, hans, hk, hd, hl, ho, himp⟩
+  · refine ⟨challenge, sig, key, sb, opened, hc, hsent, hans, hk, hd, hl, ho, himp, ?_⟩
+    intro hr
+    rw [hr] at hrk
+    simpa using hrk
 
-/-- `_partial`: with the comparison in place (`checksChallenge`, regenerated from the source) the
-    full statement holds. -/
-theorem bound_to_this_challenge_cryptosign_partial (fx : Facts) (hc : fx.csChecksChallenge = true) :
+/-- `_partial`: with the comparison in place (`checksChallenge`) and the empty-key guard in place
+    (`csRefusesEmptyKey`) — both regenerated from the source — the full statement holds. -/
+theorem bound_to_this_challenge_cryptosign_partial (fx : Facts) (hc : fx.csChecksChallenge = true)
+    (hr : fx.csRefusesEmptyKey = true) :
     bound_to_this_challenge_cryptosign_full fx := by
   intro ks t env details script w h hb
-  obtain ⟨challenge, sig, key, sb, opened, h1, h2, h3, h4, h5, h6, h7, h8⟩ :=
+  obtain ⟨challenge, sig, key, sb, opened, h1, h2, h3, h4, h5, h6, h7, h8, h9⟩ :=
     bound_to_this_challenge_cryptosign_weak fx h hb
-  exact ⟨challenge, sig, key, sb, opened, h1, h2, h3, h4, h5, h6, h7, h8 hc⟩
+  exact ⟨challenge, sig, key, sb, opened, h1, h2, h3, h4, h5, h6, h7, h8 hc, h9 hr⟩
 
 /-! The witness of F7: a key store with one user, an oracle under which the client's response
     is a validly signed message that opens to `[2]`, while the challenge issued now is `[1]`. -/
 
 def witnessKS : KeyStore :=
-  { provider := "static", authRole := fun _ => .ok "user", authKey := fun _ _ => .ok (some []),
+  { provider := "static", authRole := fun _ => .ok "user", authKey := fun _ _ => .ok (some [7]),
     passwordInfo := fun _ => ("", 0, 0), bypass := none }
 
 def witnessOracle (challenge : Bytes) : Oracle :=
@@ -499,7 +516,7 @@ theorem bound_to_this_challenge_cryptosign_full_fails (fx : Facts) (hc : fx.csCh
   have h := hfull witnessKS 0 (witnessEnv [1]) witnessDetails witnessScript
     (stdWelcome "alice" "user" "cryptosign" "static")
   rw [hc] at h
-  obtain ⟨challenge, sig, key, sb, opened, h1, _, _, _, _, _, h7, h8⟩ := h rfl rfl
+  obtain ⟨challenge, sig, key, sb, opened, h1, _, _, _, _, _, h7, h8, _⟩ := h (by cases fx.csRefusesEmptyKey <;> rfl) rfl
   have e1 : challenge = [1] := by
     have : (witnessEnv [1]).o.csChallenge = some [1] := rfl
     rw [this] at h1
@@ -513,25 +530,56 @@ theorem bound_to_this_challenge_cryptosign_full_fails (fx : Facts) (hc : fx.csCh
   rw [e1, e2] at h8
   simp at h8
 
+/-- the F7 key store with the key removed: `AuthKey` answers `(nil, nil)` -/
+def nilKeyKS : KeyStore := { witnessKS with authKey := fun _ _ => .ok none }
+
+/-- `_full_fails_no_key_guard` (regression lemma for the nil-key finding): as long as `Authenticate`
+    goes on with a key store answer that carries no key, the full statement is false — the response
+    is verified against the all-zero public key (`pad32 []`), here by an oracle under which it opens
+    to this handshake's challenge `[2]`. -/
+theorem bound_to_this_challenge_cryptosign_full_fails_no_key_guard (fx : Facts)
+    (hr : fx.csRefusesEmptyKey = false) : ¬ bound_to_this_challenge_cryptosign_full fx := by
+  intro hfull
+  have h := hfull nilKeyKS 0 (witnessEnv [2]) witnessDetails witnessScript
+    (stdWelcome "alice" "user" "cryptosign" "static")
+  rw [hr] at h
+  obtain ⟨challenge, sig, key, sb, opened, _, _, _, h4, _, _, _, _, h9⟩ :=
+    h (by cases fx.csChecksChallenge <;> rfl) rfl
+  have : key = none := by
+    have e : nilKeyKS.authKey (witnessDetails.optString "authid") "cryptosign" = .ok none := rfl
+    rw [e] at h4
+    cases h4; rfl
+  rw [this] at h9
+  simp at h9
+
 /-- `_gen`: for the facts regenerated from the source on this run, the full statement holds
-    exactly when `verifySignature` compares the opened message with the challenge.  (True
-    before and after a fix; `Gen.Auth.cryptosignChecksChallenge` says which side applies.) -/
+    exactly when `verifySignature` compares the opened message with the challenge AND
+    `Authenticate` refuses a key store answer without a key.  (True before and after the fixes;
+    `Gen.Auth.cryptosignChecksChallenge` and `Gen.Auth.csRefusesEmptyKey` say which side applies.) -/
 theorem bound_to_this_challenge_cryptosign_gen :
-    bound_to_this_challenge_cryptosign_full Facts.gen ↔ Gen.Auth.cryptosignChecksChallenge = true := by
+    bound_to_this_challenge_cryptosign_full Facts.gen ↔
+      (Gen.Auth.cryptosignChecksChallenge = true ∧ Gen.Auth.csRefusesEmptyKey = true) := by
   have hg : Facts.gen.csChecksChallenge = Gen.Auth.cryptosignChecksChallenge := rfl
+  have hg' : Facts.gen.csRefusesEmptyKey = Gen.Auth.csRefusesEmptyKey := rfl
   constructor
   · intro h
-    cases hc : Gen.Auth.cryptosignChecksChallenge with
-    | true => rfl
-    | false => exact absurd h (bound_to_this_challenge_cryptosign_full_fails Facts.gen (hg.trans hc))
-  · intro hc
-    exact bound_to_this_challenge_cryptosign_partial Facts.gen (hg.trans hc)
+    refine ⟨?_, ?_⟩
+    · cases hc : Gen.Auth.cryptosignChecksChallenge with
+      | true => rfl
+      | false => exact absurd h (bound_to_this_challenge_cryptosign_full_fails Facts.gen (hg.trans hc))
+    · cases hc : Gen.Auth.csRefusesEmptyKey with
+      | true => rfl
+      | false => exact absurd h (bound_to_this_challenge_cryptosign_full_fails_no_key_guard Facts.gen (hg'.trans hc))
+  · intro ⟨hc, hr⟩
+    exact bound_to_this_challenge_cryptosign_partial Facts.gen (hg.trans hc) (hg'.trans hr)
 
 /-- `bound_to_this_challenge_cryptosign`: THE full statement, for the source as it is now
-    (`verifySignature` compares the opened message with the challenge: F7 is fixed).  Reverting
-    that comparison flips `Gen.Auth.cryptosignChecksChallenge` and this theorem no longer checks. -/
+    (`verifySignature` compares the opened message with the challenge: F7 is fixed; `Authenticate`
+    refuses a key store answer without a key: the nil-key finding is fixed).  Reverting either fix
+    flips `Gen.Auth.cryptosignChecksChallenge` / `Gen.Auth.csRefusesEmptyKey` and this theorem no
+    longer checks. -/
 theorem bound_to_this_challenge_cryptosign : bound_to_this_challenge_cryptosign_full Facts.gen :=
-  bound_to_this_challenge_cryptosign_gen.mpr (by decide)
+  bound_to_this_challenge_cryptosign_gen.mpr ⟨by decide, by decide⟩
 
 /-- The replay, end to end, against a router with one realm whose only authenticator is
     cryptosign: the same captured response is presented in two handshakes whose challenges
@@ -550,7 +598,7 @@ theorem cryptosign_replay_witness (fx : Facts) (hfm : fx.firstMatch = true) :
     (fx.csChecksChallenge = true →
       (attach fx witnessRouter (witnessEnv [1]) witnessArrivals).outcome =
         .abort Gen.N.ErrAuthenticationFailed .invalidSignature) := by
-  obtain ⟨wnb, fm, cs, hs, ws, sk⟩ := fx
+  obtain ⟨wnb, fm, cs, crk, csk, hs, ws, sk⟩ := fx
   simp only at hfm
   subst hfm
   constructor
@@ -558,11 +606,11 @@ theorem cryptosign_replay_witness (fx : Facts) (hfm : fx.firstMatch = true) :
     simp only at hc
     subst hc
     intro challenge
-    exact ⟨_, _, rfl, rfl⟩
+    cases csk <;> exact ⟨_, _, rfl, rfl⟩
   · intro hc
     simp only at hc
     subst hc
-    rfl
+    cases csk <;> rfl
 
 /-- `bound_to_this_challenge`, all methods at once, at the level of `attach`: whenever WELCOME is
     the outcome and the bypass was not taken, the authenticator chosen is the first configured
@@ -588,12 +636,12 @@ theorem bound_to_this_challenge {fx : Facts} (hfm : fx.firstMatch = true) {rt : 
            ∃ chStr, (attach fx rt env arr).sent =
                [.challenge "wampcra" (craExtra ks ((helloDetails env details).optString "authid") chStr),
                 .welcome sid w] ∧
-             CraAccepts ks t env (helloDetails env details) rest (attach fx rt env arr).rest chStr
+             CraAccepts fx.craRefusesEmptyKey ks t env (helloDetails env details) rest (attach fx rt env arr).rest chStr
          | .cryptosign ks t =>
            alreadyAuth ks.bypass ((helloDetails env details).optString "authid") (helloDetails env details) = true ∨
            ∃ challenge, (attach fx rt env arr).sent =
                [.challenge "cryptosign" [("challenge", .str (hexEncode challenge))], .welcome sid w] ∧
-             CsAccepts fx.csChecksChallenge ks t env (helloDetails env details) rest
+             CsAccepts fx.csChecksChallenge fx.csRefusesEmptyKey ks t env (helloDetails env details) rest
                (attach fx rt env arr).rest challenge) := by
   obtain ⟨d, realm, details, rest, rc, created, harr, hd, hre, hav, hrole, hauth, hcl, hsid, hsess⟩ := attach_welcome h
   subst harr
@@ -797,7 +845,7 @@ theorem hello_identity_survives_old_skip_list (fx : Facts) (hfm : fx.firstMatch 
       sess.get? "authrole" = some (.str "admin") ∧ sess.get? "authprovider" = some (.str "evil") ∧
       sess.get? "authid" = some (.str "partial-user") ∧ sess.get? "authmethod" = some (.str "partial") ∧
       sess.get? "session" = some (.int 1) := by
-  obtain ⟨wnb, fm, cs, hs, ws, sk⟩ := fx
+  obtain ⟨wnb, fm, cs, crk, csk, hs, ws, sk⟩ := fx
   simp only at hfm hsk hhs hws
   subst hfm; subst hsk; subst hhs; subst hws
   exact ⟨_, _, rfl, rfl, rfl, rfl, rfl, rfl, rfl⟩
@@ -1324,18 +1372,18 @@ theorem craChallengeStr_sid_inj {n p a t r n' p' a' t' r' : String} {s₁ s₂ :
     hypotheses merely say what a replay is: the response arrives in time (`hans`), the key store did
     not vouch for the client without a challenge (`hb`, the `AlreadyAuth` exception), and the
     response was valid for that other challenge (`hother`). -/
-theorem wampcra_replay_rejected' {ks : KeyStore} {t : Nat} {env : Env} {details : Dict}
+theorem wampcra_replay_rejected' {rk : Bool} {ks : KeyStore} {t : Nat} {env : Env} {details : Dict}
     {script : List Arrival} {sig : String} {rest : List Arrival}
     {otherNonce otherProvider otherAuthid otherTs otherRole : String} {otherSid : Nat}
     (hans : AnswersInTime (crTimeout t) script sig rest)
     (hb : alreadyAuth ks.bypass (details.optString "authid") details = false)
     (hother : ∃ sb, env.o.b64decode sig = some sb ∧
-        sb = env.o.hmac (craKey ks env.o (details.optString "authid"))
+        sb = env.o.hmac (craKey rk ks env.o (details.optString "authid"))
           (craChallengeStr otherNonce otherProvider otherAuthid otherTs otherRole otherSid))
     (hsid : otherSid ≠ env.o.sid)
-    (hinj : ∀ a b, env.o.hmac (craKey ks env.o (details.optString "authid")) a =
-        env.o.hmac (craKey ks env.o (details.optString "authid")) b → a = b) :
-    ∀ w, (craAuth ks t env details script).res ≠ .ok w := by
+    (hinj : ∀ a b, env.o.hmac (craKey rk ks env.o (details.optString "authid")) a =
+        env.o.hmac (craKey rk ks env.o (details.optString "authid")) b → a = b) :
+    ∀ w, (craAuth rk ks t env details script).res ≠ .ok w := by
   intro w h
   obtain ⟨nonce, _, _, _, hn, _⟩ := wampcra_bound_to_this_challenge h hb
   refine wampcra_replay_rejected hn hans hb hother ?_ w h
@@ -1362,7 +1410,7 @@ theorem injOracle_hmac_inj (sid : Nat) (nonce : String) (k : Bytes) (a b : Strin
     response that was valid in ANY handshake with session id 41 (whatever its nonce, timestamp, …)
     is refused in the handshake with session id 42 -/
 example (n1 p a ts r : String) : ∀ w,
-    (craAuth exKS 0 { exEnv with o := injOracle 42 "N2" } [("authid", .str "alice")]
+    (craAuth Facts.gen.craRefusesEmptyKey exKS 0 { exEnv with o := injOracle 42 "N2" } [("authid", .str "alice")]
       [⟨0, .msg (.authenticate (craChallengeStr n1 p a ts r 41) [])⟩]).res ≠ .ok w :=
   wampcra_replay_rejected' (otherNonce := n1) (otherProvider := p) (otherAuthid := a)
     (otherTs := ts) (otherRole := r) (otherSid := 41)
@@ -1381,10 +1429,11 @@ theorem cryptosign_replay_rejected_of_checks {fx : Facts} (hcc : fx.csChecksChal
     (hd : env.o.hexdecode sig = some sb)
     (ho : env.o.signOpen sb (pad32 (key.getD [])) = some other)
     (hne : env.o.csChallenge ≠ some other) :
-    ∀ w, (csAuth fx.csChecksChallenge ks t env details script).res ≠ .ok w := by
+    ∀ w, (csAuth fx.csChecksChallenge fx.csRefusesEmptyKey ks t env details script).res ≠ .ok w := by
   intro w h
-  obtain ⟨challenge, sig', key', sb', opened, hc, _, hans', hk', hd', _, ho', heq⟩ :=
-    bound_to_this_challenge_cryptosign_partial fx hcc ks t env details script w h hb
+  obtain ⟨challenge, sig', key', sb', opened, hc, _, hans', hk', hd', _, ho', heq', _⟩ :=
+    bound_to_this_challenge_cryptosign_weak fx h hb
+  have heq := heq' hcc
   obtain ⟨d, e, hs, _⟩ := hans
   obtain ⟨d', e', hs', _⟩ := hans'
   rw [hs] at hs'
@@ -1416,37 +1465,154 @@ theorem cryptosign_replay_rejected
     (hd : env.o.hexdecode sig = some sb)
     (ho : env.o.signOpen sb (pad32 (key.getD [])) = some other)
     (hne : env.o.csChallenge ≠ some other) :
-    ∀ w, (csAuth Facts.gen.csChecksChallenge ks t env details script).res ≠ .ok w :=
+    ∀ w, (csAuth Facts.gen.csChecksChallenge Facts.gen.csRefusesEmptyKey ks t env details script).res ≠ .ok w :=
   cryptosign_replay_rejected_of_checks (by decide) hans hb hk hd ho hne
 
 /-- its hypotheses are satisfiable: the captured response of the F7 witness opens to `[2]`, the
     challenge of this handshake is `[1]` -/
 example : ∀ w,
-    (csAuth Facts.gen.csChecksChallenge witnessKS 0 (witnessEnv [1]) witnessDetails witnessScript).res ≠ .ok w :=
+    (csAuth Facts.gen.csChecksChallenge Facts.gen.csRefusesEmptyKey witnessKS 0 (witnessEnv [1]) witnessDetails witnessScript).res ≠ .ok w :=
   cryptosign_replay_rejected (other := [2]) ⟨0, [], rfl, by decide⟩ rfl rfl rfl rfl (by decide)
 
-/-! ## Users without a key: an exception to "only authenticated clients" (audit D b/d6)
+/-! ## Users without a key are refused (audit D b/d6; finding fixed in /repo 7f39285)
 
-  `KeyStore.AuthKey` returns `([]byte, error)`.  When it answers `(nil, nil)` for a user — "known,
-  no key for this method"; the key store of the repository's own tests does so for every method but
-  wampcra and ticket (test/auth_test.go:183-199) — the ticket authenticator refuses
-  (`ticket == nil ||`, ticket.go:103), but wampcra and cryptosign go on with the nil slice:
-    * crauth.go:66-74 tests only `err`; crauth.go:114 `crsign.VerifySignature(sig, chStr, key)` and
-      crsign.go:24-28 `hmac.New(sha256.New, key)` accept a nil key: the expected response is the
-      HMAC-SHA256 under the EMPTY key of the challenge string, which the client was just sent
-      (crauth.go:82) — computable by anyone;
-    * cryptosign.go:64-67 tests only `err`; cryptosign.go:136-138 `var pubkey [32]byte;
-      copy(pubkey[:], publicKey)` leaves the ALL-ZERO public key, and `sign.Open` decides.
-  The model is faithful (`craKey … = k.getD []`, `pad32 (key.getD [])`); the theorems below record
-  the behaviour.  Whether a signature under the all-zero Ed25519 key can be produced is a question
-  about the primitive and outside the model (`signOpen` is an oracle). -/
+  `KeyStore.AuthKey` returns `([]byte, error)`.  It may answer `(nil, nil)` for a user — "known, no
+  key for this method"; the key store of the repository's own tests does so for every method but
+  wampcra and ticket (test/auth_test.go:183-199).  The ticket authenticator always refused that
+  (`ticket == nil ||`, ticket.go:103).  wampcra and cryptosign used to go on with the nil slice — the
+  expected wampcra response was the HMAC under the EMPTY key of the challenge string the client had
+  just been sent (computable by anyone), and cryptosign verified against the ALL-ZERO public key.
+  Since 7f39285 both test `err != nil || len(key) == 0` right after `AuthKey`
+  (`Gen.Auth.craKeyGuard`, `Gen.Auth.csKeyGuard`, pinned by `source_shape`):
+    * crauth.go: no key is treated like a key store error — the response is checked against a
+      throw-away random key (`craThrowAway`: `nonce()`, or the clock when that is empty), which is
+      never sent to anyone (`wampcra_challenge_hides_random_key`);
+    * cryptosign.go: `Authenticate` returns an error before any CHALLENGE: ABORT.
+  The model follows through the regenerated facts `craRefusesEmptyKey` / `csRefusesEmptyKey`
+  (`Facts.gen`); the `…_without_guard` theorems keep the old behaviour as regression lemmas for a
+  tree without the guard, and the `_gen` theorems stop checking if a guard is reverted. -/
 
-/-- `wampcra_nil_key_public_mac`: if the key store answers `(nil, nil)` for the claimed authid, the
-    wampcra authenticator welcomes whoever answers the CHALLENGE with (the base64 of) the MAC under
-    the EMPTY key of the challenge string — and that string is public: it is the `challenge` extra
-    of the CHALLENGE just sent to the client.  No secret is involved: an exception to "only
-    authenticated clients join".  Faithful to Go (crauth.go:66-74, :114; crsign.go:24-28). -/
-theorem wampcra_nil_key_public_mac {ks : KeyStore} {t : Nat} {env : Env} {details : Dict}
+/-- with the guard, a key store answer without a key (nil or empty slice, no error) makes wampcra
+    use the throw-away key -/
+theorem craKey_of_no_key {ks : KeyStore} {o : Oracle} {authid : String} {k : Option Bytes}
+    (hk : ks.authKey authid "wampcra" = .ok k) (he : (k.getD []).isEmpty = true) :
+    craKey true ks o authid = craThrowAway o := by
+  simp [craKey, hk, he]
+
+/-- … and in every case the key is a stored NON-EMPTY key or the throw-away key -/
+theorem craKey_guarded_cases (ks : KeyStore) (o : Oracle) (authid : String) :
+    craKey true ks o authid = craThrowAway o ∨
+    ∃ k, ks.authKey authid "wampcra" = .ok (some k) ∧ k ≠ [] ∧ craKey true ks o authid = k := by
+  unfold craKey
+  cases h : ks.authKey authid "wampcra" with
+  | error e => exact Or.inl rfl
+  | ok k =>
+    cases k with
+    | none => exact Or.inl (by simp)
+    | some k =>
+      by_cases he : k = []
+      · exact Or.inl (by simp [he])
+      · refine Or.inr ⟨k, rfl, he, ?_⟩
+        have : k.isEmpty = false := by cases k with | nil => exact absurd rfl he | cons _ _ => rfl
+        simp [this]
+
+/-- `wampcra_empty_key_random_key`: with the guard, if the key store has no key for the claimed
+    authid, whatever response is accepted on the challenge path decodes to the MAC of THIS
+    handshake's challenge string under the THROW-AWAY RANDOM KEY of this handshake — not under the
+    empty key, nor any key the client could know. -/
+theorem wampcra_empty_key_random_key {ks : KeyStore} {t : Nat} {env : Env} {details : Dict}
+    {script : List Arrival} {w : Dict} {k : Option Bytes}
+    (hk : ks.authKey (details.optString "authid") "wampcra" = .ok k) (he : (k.getD []).isEmpty = true)
+    (h : (craAuth true ks t env details script).res = .ok w)
+    (hb : alreadyAuth ks.bypass (details.optString "authid") details = false) :
+    ∃ nonce sig sb, env.o.chalNonce = some nonce ∧
+      AnswersInTime (crTimeout t) script sig (craAuth true ks t env details script).rest ∧
+      env.o.b64decode sig = some sb ∧
+      sb = env.o.hmac (craThrowAway env.o) (craChallengeOf ks env (details.optString "authid") nonce) := by
+  obtain ⟨nonce, chStr, sig, sb, hn, hch, _, _, hans, hdec, heq⟩ := wampcra_bound_to_this_challenge h hb
+  refine ⟨nonce, sig, sb, hn, hans, hdec, ?_⟩
+  rw [craKey_of_no_key hk he] at heq
+  rw [heq, hch]
+  rfl
+
+/-- `wampcra_empty_key_refused` (replaces `wampcra_nil_key_public_mac`): with the guard, when the key
+    store answers no key for the claimed authid (nil or empty, no error), every response that does
+    not decode to the MAC of the challenge string under the throw-away random key is refused — in
+    particular every response the client can compute from what it was sent, because the random key
+    is not in it (`wampcra_challenge_hides_random_key`); that a client cannot guess the MAC under an
+    unknown random key is the assumption on the primitive, stated as `hsig`. -/
+theorem wampcra_empty_key_refused {ks : KeyStore} {t : Nat} {env : Env} {details : Dict}
+    {script : List Arrival} {sig : String} {rest : List Arrival} {nonce : String} {k : Option Bytes}
+    (hk : ks.authKey (details.optString "authid") "wampcra" = .ok k) (he : (k.getD []).isEmpty = true)
+    (hb : alreadyAuth ks.bypass (details.optString "authid") details = false)
+    (hn : env.o.chalNonce = some nonce)
+    (hans : AnswersInTime (crTimeout t) script sig rest)
+    (hsig : env.o.b64decode sig ≠
+      some (env.o.hmac (craThrowAway env.o) (craChallengeOf ks env (details.optString "authid") nonce))) :
+    ∀ w, (craAuth true ks t env details script).res ≠ .ok w := by
+  intro w h
+  obtain ⟨nonce', sig', sb, hn', hans', hdec, heq⟩ := wampcra_empty_key_random_key hk he h hb
+  rw [hn] at hn'
+  cases hn'
+  obtain ⟨d, e, hs, _⟩ := hans
+  obtain ⟨d', e', hs', _⟩ := hans'
+  rw [hs] at hs'
+  simp at hs'
+  obtain ⟨⟨_, hsig', _⟩, _⟩ := hs'
+  subst hsig'
+  rw [hdec, heq] at hsig
+  exact hsig rfl
+
+/-- The former exploit, refused: the MAC of the (public) challenge string under the EMPTY key is
+    not accepted, as soon as it differs from the MAC under the throw-away key. -/
+theorem wampcra_empty_key_mac_refused {ks : KeyStore} {t : Nat} {env : Env} {details : Dict}
+    {script : List Arrival} {sig : String} {rest : List Arrival} {nonce : String} {k : Option Bytes}
+    (hk : ks.authKey (details.optString "authid") "wampcra" = .ok k) (he : (k.getD []).isEmpty = true)
+    (hb : alreadyAuth ks.bypass (details.optString "authid") details = false)
+    (hn : env.o.chalNonce = some nonce)
+    (hans : AnswersInTime (crTimeout t) script sig rest)
+    (hsig : env.o.b64decode sig =
+      some (env.o.hmac [] (craChallengeOf ks env (details.optString "authid") nonce)))
+    (hmac : env.o.hmac [] (craChallengeOf ks env (details.optString "authid") nonce) ≠
+      env.o.hmac (craThrowAway env.o) (craChallengeOf ks env (details.optString "authid") nonce)) :
+    ∀ w, (craAuth true ks t env details script).res ≠ .ok w :=
+  wampcra_empty_key_refused hk he hb hn hans (by rw [hsig]; intro e; exact hmac (Option.some.inj e))
+
+/-- … for the source as it is now: `Gen.Auth.craRefusesEmptyKey` is `true` (the guard is
+    `err != nil || len(key) == 0`).  Reverting the Go fix flips the constant and this stops checking. -/
+theorem wampcra_empty_key_refused_gen {ks : KeyStore} {t : Nat} {env : Env} {details : Dict}
+    {script : List Arrival} {sig : String} {rest : List Arrival} {nonce : String} {k : Option Bytes}
+    (hk : ks.authKey (details.optString "authid") "wampcra" = .ok k) (he : (k.getD []).isEmpty = true)
+    (hb : alreadyAuth ks.bypass (details.optString "authid") details = false)
+    (hn : env.o.chalNonce = some nonce)
+    (hans : AnswersInTime (crTimeout t) script sig rest)
+    (hsig : env.o.b64decode sig ≠
+      some (env.o.hmac (craThrowAway env.o) (craChallengeOf ks env (details.optString "authid") nonce))) :
+    ∀ w, (runAuth Facts.gen (.wampcra ks t) env details script).res ≠ .ok w := by
+  have hg : Facts.gen.craRefusesEmptyKey = true := by decide
+  show ∀ w, (craAuth Facts.gen.craRefusesEmptyKey ks t env details script).res ≠ .ok w
+  rw [hg]
+  exact wampcra_empty_key_refused hk he hb hn hans hsig
+
+/-- What the client is sent does not depend on the throw-away key: the CHALLENGE (and everything
+    else wampcra sends) is the same whatever `nonce()` / the clock answer for that key. -/
+theorem wampcra_challenge_hides_random_key (rk : Bool) (ks : KeyStore) (t : Nat) (env : Env) (details : Dict)
+    (script : List Arrival) (kn : Option String) (know : String) :
+    (craAuth rk ks t { env with o := { env.o with keyNonce := kn, keyNow := know } } details script).sent =
+      (craAuth rk ks t env details script).sent := by
+  unfold craAuth
+  dsimp only
+  split
+  · rfl
+  · split
+    · rfl
+    · split <;> rfl
+
+/-- `wampcra_nil_key_public_mac_without_guard` (regression lemma; the former
+    `wampcra_nil_key_public_mac`): in a tree WITHOUT the guard (`refuseEmpty = false`), if the key store
+    answers `(nil, nil)`, whoever answers the CHALLENGE with the MAC under the EMPTY key of the
+    challenge string — which it was just sent — is welcomed. -/
+theorem wampcra_nil_key_public_mac_without_guard {ks : KeyStore} {t : Nat} {env : Env} {details : Dict}
     {script : List Arrival} {sig : String} {rest : List Arrival} {nonce : String}
     (hid : details.optString "authid" ≠ "")
     (hk : ks.authKey (details.optString "authid") "wampcra" = .ok none)
@@ -1456,18 +1622,18 @@ theorem wampcra_nil_key_public_mac {ks : KeyStore} {t : Nat} {env : Env} {detail
     (hans : AnswersInTime (crTimeout t) script sig rest)
     (hsig : env.o.b64decode sig =
       some (env.o.hmac [] (craChallengeOf ks env (details.optString "authid") nonce))) :
-    (craAuth ks t env details script).sent =
+    (craAuth false ks t env details script).sent =
       [.challenge "wampcra" (craExtra ks (details.optString "authid")
         (craChallengeOf ks env (details.optString "authid") nonce))] ∧
     (craExtra ks (details.optString "authid")
         (craChallengeOf ks env (details.optString "authid") nonce)).get? "challenge" =
       some (.str (craChallengeOf ks env (details.optString "authid") nonce)) ∧
-    (craAuth ks t env details script).res =
+    (craAuth false ks t env details script).res =
       .ok (stdWelcome (details.optString "authid") (roleOr ks (details.optString "authid") "user")
         "wampcra" ks.provider) := by
-  have hkey : craKey ks env.o (details.optString "authid") = [] := by simp [craKey, hk]
+  have hkey : craKey false ks env.o (details.optString "authid") = [] := by simp [craKey, hk]
   have hv : craVerify env.o sig (craChallengeOf ks env (details.optString "authid") nonce)
-      (craKey ks env.o (details.optString "authid")) = true := by
+      (craKey false ks env.o (details.optString "authid")) = true := by
     rw [hkey]; exact craVerify_iff.mpr ⟨_, hsig, rfl⟩
   have hal : alreadyAuth ks.bypass (details.optString "authid") details = false := by
     rw [hbp]; rfl
@@ -1480,13 +1646,40 @@ theorem wampcra_nil_key_public_mac {ks : KeyStore} {t : Nat} {env : Env} {detail
     rw [hbp]
     rfl
 
-/-- `cryptosign_nil_key_zero_key`: if the key store answers `(nil, nil)` for the claimed authid, the
-    cryptosign authenticator verifies the response against the ALL-ZERO 32-byte public key: whoever
-    presents a 96-byte signed message that `sign.Open` opens under that key to this handshake's
-    challenge is welcomed under the claimed authid (with or without the challenge comparison).
-    Faithful to Go (cryptosign.go:64-67, :136-138); an exception to "only authenticated clients". -/
-theorem cryptosign_nil_key_zero_key {checks : Bool} {ks : KeyStore} {t : Nat} {env : Env} {details : Dict}
-    {script : List Arrival} {sig : String} {rest : List Arrival} {authrole : String}
+/-- `cryptosign_empty_key_refused` (replaces `cryptosign_nil_key_zero_key`): with the guard, when the
+    key store answers no key for the claimed authid (nil or empty, no error) the cryptosign
+    authenticator fails at once: NOTHING is sent (no CHALLENGE), nothing of the client's script is
+    read, the result is the key error — `attach` turns it into ABORT `authentication_failed`
+    (`cryptosign_empty_key_witness`). -/
+theorem cryptosign_empty_key_refused {checks : Bool} {ks : KeyStore} {t : Nat} {env : Env} {details : Dict}
+    {script : List Arrival} {authrole : String} {k : Option Bytes}
+    (hid : details.optString "authid" ≠ "")
+    (hr : ks.authRole (details.optString "authid") = .ok authrole)
+    (hb : alreadyAuth ks.bypass (details.optString "authid") details = false)
+    (hk : ks.authKey (details.optString "authid") "cryptosign" = .ok k) (he : (k.getD []).isEmpty = true) :
+    csAuth checks true ks t env details script = { sent := [], res := .error .keyError, rest := script } := by
+  simp only [csAuth, beq_iff_eq, hid, hr, hb, hk, he, if_false, Bool.false_eq_true, Bool.and_self, if_true]
+
+/-- … for the source as it is now (`Gen.Auth.csRefusesEmptyKey = true`); reverting the Go fix flips
+    the constant and this stops checking. -/
+theorem cryptosign_empty_key_refused_gen {ks : KeyStore} {t : Nat} {env : Env} {details : Dict}
+    {script : List Arrival} {authrole : String} {k : Option Bytes}
+    (hid : details.optString "authid" ≠ "")
+    (hr : ks.authRole (details.optString "authid") = .ok authrole)
+    (hb : alreadyAuth ks.bypass (details.optString "authid") details = false)
+    (hk : ks.authKey (details.optString "authid") "cryptosign" = .ok k) (he : (k.getD []).isEmpty = true) :
+    runAuth Facts.gen (.cryptosign ks t) env details script =
+      { sent := [], res := .error .keyError, rest := script } := by
+  have hg : Facts.gen.csRefusesEmptyKey = true := by decide
+  show csAuth Facts.gen.csChecksChallenge Facts.gen.csRefusesEmptyKey ks t env details script = _
+  rw [hg]
+  exact cryptosign_empty_key_refused hid hr hb hk he
+
+/-- `cryptosign_nil_key_zero_key_without_guard` (regression lemma; the former
+    `cryptosign_nil_key_zero_key`): in a tree WITHOUT the guard, a `(nil, nil)` answer makes cryptosign
+    verify the response against the ALL-ZERO 32-byte public key. -/
+theorem cryptosign_nil_key_zero_key_without_guard {checks : Bool} {ks : KeyStore} {t : Nat} {env : Env}
+    {details : Dict} {script : List Arrival} {sig : String} {rest : List Arrival} {authrole : String}
     {challenge sb : Bytes}
     (hid : details.optString "authid" ≠ "")
     (hr : ks.authRole (details.optString "authid") = .ok authrole)
@@ -1497,7 +1690,7 @@ theorem cryptosign_nil_key_zero_key {checks : Bool} {ks : KeyStore} {t : Nat} {e
     (hans : AnswersInTime (crTimeout t) script sig rest)
     (hd : env.o.hexdecode sig = some sb) (hl : sb.length = Gen.Auth.cryptosignSignedLen)
     (ho : env.o.signOpen sb (List.replicate 32 0) = some challenge) :
-    (csAuth checks ks t env details script).res =
+    (csAuth checks false ks t env details script).res =
       .ok (stdWelcome (details.optString "authid") authrole "cryptosign" ks.provider) := by
   have hal : alreadyAuth ks.bypass (details.optString "authid") details = false := by
     rw [hbp]; rfl
@@ -1505,13 +1698,13 @@ theorem cryptosign_nil_key_zero_key {checks : Bool} {ks : KeyStore} {t : Nat} {e
   have hv : csVerify checks env.o sig ((none : Option Bytes).getD []) challenge = .ok true :=
     csVerify_true_iff.mpr ⟨sb, challenge, hd, hl, by rw [hpad]; exact ho, fun _ => rfl⟩
   simp only [csAuth, beq_iff_eq, hid, hr, hal, hk, hc, hsend, if_false, exchange_of_answer hans, andThen,
-    csDecide, hv]
-  simp
+    csDecide, hv, Bool.false_and, Bool.false_eq_true]
 
 /-! The witnesses, end to end.  `exKS` knows `bob` (role `user`) and answers `(nil, nil)` for his key,
     whatever the method.  Toy primitives that DO depend on the key: the MAC of any message is the key
-    followed by the byte 9 (so the MAC under the empty key is `[9]`, under alice's key `[1,2,3,9]`);
-    one text base64-decodes to `[9]`; `sign.Open` verifies under the all-zero key only. -/
+    followed by the byte 9 (so the MAC under the empty key is `[9]`, under alice's key `[1,2,3,9]`,
+    under the throw-away key "k" `[107, 9]`); one text base64-decodes to `[9]`; `sign.Open` verifies
+    under the all-zero key only. -/
 
 def keyedOracle : Oracle :=
   { exOracle with
@@ -1528,47 +1721,87 @@ def nilKeyRouter : RouterCfg :=
 /-- the challenge string the router sends to "bob" in this handshake -/
 def bobChallenge : String := craChallengeStr "N" "static" "bob" "T" "user" 42
 
-/-- `wampcra_nil_key_witness`: a remote client says it is bob, is sent `bobChallenge`, answers with the
-    MAC under the EMPTY key and is welcomed and recorded as bob — while the very same answer given
-    in alice's name, who has a key, is refused. -/
-theorem wampcra_nil_key_witness :
+theorem c09_toList_loop_eq (bs : ByteArray) (i : Nat) (r : List UInt8) :
+    ByteArray.toList.loop bs i r = r.reverse ++ bs.data.toList.drop i := by
+  fun_induction ByteArray.toList.loop bs i r with
+  | case1 i r h ih =>
+    rw [ih]
+    have h' : i < bs.data.toList.length := h
+    rw [List.drop_eq_getElem_cons h']
+    have hg : bs.get! i = bs.data.toList[i] := by
+      cases bs with
+      | mk d =>
+        show d[i]! = _
+        have : i < d.size := h
+        simp [this]
+    rw [hg, List.reverse_cons, List.append_assoc]
+    rfl
+  | case2 i r h =>
+    have : bs.data.toList.length ≤ i := Nat.le_of_not_lt h
+    rw [List.drop_eq_nil_of_le this, List.append_nil]
+
+/-- the throw-away key of the example oracle: the bytes of "k" -/
+theorem keyedOracle_throwAway : craThrowAway keyedOracle = [107] := by
+  show ("k".toUTF8).toList = [107]
+  unfold ByteArray.toList
+  rw [c09_toList_loop_eq]
+  decide
+
+/-- `wampcra_empty_key_witness` (replaces `wampcra_nil_key_witness`): a remote client says it is bob
+    — for whom the key store has no key — and answers the CHALLENGE with the MAC under the EMPTY key
+    (`[9]`): the source as it is now (`Facts.gen`) refuses, because the expected MAC is the one
+    under the throw-away key (`[107, 9]`); a tree without the guard welcomed that client as bob. -/
+theorem wampcra_empty_key_witness :
     exKS.authKey "bob" "wampcra" = .ok none ∧
+    (∀ w, (runAuth Facts.gen (.wampcra exKS 0) keyedEnv [("authid", .str "bob")]
+        [⟨0, .msg (.authenticate "mac-under-the-empty-key" [])⟩]).res ≠ .ok w) ∧
     (∃ sess w,
-      (attach Facts.gen nilKeyRouter keyedEnv
+      (attach { Facts.gen with craRefusesEmptyKey := false } nilKeyRouter keyedEnv
         [⟨0, .msg (exHello [.str "wampcra"] "bob")⟩,
          ⟨0, .msg (.authenticate "mac-under-the-empty-key" [])⟩]).outcome = .welcome 42 sess w ∧
-      (attach Facts.gen nilKeyRouter keyedEnv
-        [⟨0, .msg (exHello [.str "wampcra"] "bob")⟩,
-         ⟨0, .msg (.authenticate "mac-under-the-empty-key" [])⟩]).sent =
-          [.challenge "wampcra" [("challenge", .str bobChallenge)], .welcome 42 w] ∧
-      sess.get? "authid" = some (.str "bob") ∧ sess.get? "authrole" = some (.str "user")) ∧
-    (attach Facts.gen nilKeyRouter keyedEnv
-      [⟨0, .msg (exHello [.str "wampcra"] "alice")⟩,
-       ⟨0, .msg (.authenticate "mac-under-the-empty-key" [])⟩]).outcome =
-        .abort Gen.N.ErrAuthenticationFailed .invalidSignature := by
-  refine ⟨rfl, ⟨_, _, rfl, rfl, ?_, ?_⟩, rfl⟩ <;> rfl
+      sess.get? "authid" = some (.str "bob")) := by
+  refine ⟨rfl, ?_, ⟨_, _, rfl, ?_⟩⟩
+  · refine wampcra_empty_key_refused_gen (k := none) (nonce := "N") (rest := []) rfl rfl rfl rfl
+      ⟨0, [], rfl, by decide⟩ ?_
+    show keyedOracle.b64decode "mac-under-the-empty-key" ≠
+      some (keyedOracle.hmac (craThrowAway keyedOracle) _)
+    rw [keyedOracle_throwAway]
+    decide
+  · rfl
 
-/-- `cryptosign_nil_key_witness`: the same for cryptosign — bob's key is nil, the response verifies
-    under the all-zero public key and opens to this handshake's challenge `[1]`: welcomed as bob. -/
-theorem cryptosign_nil_key_witness :
+/-- `cryptosign_empty_key_witness` (replaces `cryptosign_nil_key_witness`): the same client with
+    cryptosign: the source as it is now sends ABORT `authentication_failed` and NO CHALLENGE; a tree
+    without the guard verified under the all-zero key and welcomed the client as bob. -/
+theorem cryptosign_empty_key_witness :
     exKS.authKey "bob" "cryptosign" = .ok none ∧
-    ∃ sess w,
-      (attach Facts.gen nilKeyRouter keyedEnv
+    (attach Facts.gen nilKeyRouter keyedEnv
+      [⟨0, .msg (exHello [.str "cryptosign"] "bob")⟩,
+       ⟨0, .msg (.authenticate "signed-with-the-zero-key" [])⟩]).outcome =
+        .abort Gen.N.ErrAuthenticationFailed .keyError ∧
+    (attach Facts.gen nilKeyRouter keyedEnv
+      [⟨0, .msg (exHello [.str "cryptosign"] "bob")⟩,
+       ⟨0, .msg (.authenticate "signed-with-the-zero-key" [])⟩]).joined = false ∧
+    (∃ sess w,
+      (attach { Facts.gen with csRefusesEmptyKey := false } nilKeyRouter keyedEnv
         [⟨0, .msg (exHello [.str "cryptosign"] "bob")⟩,
          ⟨0, .msg (.authenticate "signed-with-the-zero-key" [])⟩]).outcome = .welcome 42 sess w ∧
-      sess.get? "authid" = some (.str "bob") := by
-  refine ⟨rfl, _, _, rfl, ?_⟩
+      sess.get? "authid" = some (.str "bob")) := by
+  refine ⟨rfl, rfl, rfl, _, _, rfl, ?_⟩
   rfl
 
-/-- the hypotheses of the two general theorems are met by those handshakes -/
-example : (craAuth exKS 0 keyedEnv [("authid", .str "bob")]
+/-- the hypotheses of the general theorems are met by those handshakes -/
+example : csAuth true true exKS 0 keyedEnv [("authid", .str "bob")]
+      [⟨0, .msg (.authenticate "signed-with-the-zero-key" [])⟩] =
+    { sent := [], res := .error .keyError, rest := [⟨0, .msg (.authenticate "signed-with-the-zero-key" [])⟩] } :=
+  cryptosign_empty_key_refused (k := none) (authrole := "user") (by decide) rfl rfl rfl rfl
+example : (craAuth false exKS 0 keyedEnv [("authid", .str "bob")]
       [⟨0, .msg (.authenticate "mac-under-the-empty-key" [])⟩]).res =
     .ok (stdWelcome "bob" "user" "wampcra" "static") :=
-  (wampcra_nil_key_public_mac (nonce := "N") (by decide) rfl rfl rfl rfl ⟨0, [], rfl, by decide⟩ rfl).2.2
-example : (csAuth true exKS 0 keyedEnv [("authid", .str "bob")]
+  (wampcra_nil_key_public_mac_without_guard (nonce := "N") (by decide) rfl rfl rfl rfl ⟨0, [], rfl, by decide⟩ rfl).2.2
+example : (csAuth true false exKS 0 keyedEnv [("authid", .str "bob")]
       [⟨0, .msg (.authenticate "signed-with-the-zero-key" [])⟩]).res =
     .ok (stdWelcome "bob" "user" "cryptosign" "static") :=
-  cryptosign_nil_key_zero_key (challenge := [1]) (by decide) rfl rfl rfl rfl rfl ⟨0, [], rfl, by decide⟩ rfl
+  cryptosign_nil_key_zero_key_without_guard (challenge := [1]) (by decide) rfl rfl rfl rfl rfl ⟨0, [], rfl, by decide⟩ rfl
     (by decide) rfl
 
 end Nexus.C09
